@@ -312,7 +312,11 @@ func (xlsxBackend) Markdown(c *fw.Ctx, id string, d *logical.Doc, r *rand.Rand, 
 				if g[rr][cc] == "" {
 					kind = ooxml.XBlank
 				}
-				sh.Cells = append(sh.Cells, ooxml.XCell{Col: cc, Row: rr, Kind: kind, V: g[rr][cc]})
+				xc := ooxml.XCell{Col: cc, Row: rr, Kind: kind, V: g[rr][cc]}
+				if kind == ooxml.XShared && r.Intn(3) == 0 {
+					xc.Phonetic = "yomi" // a phonetic run is no part of the displayed value
+				}
+				sh.Cells = append(sh.Cells, xc)
 				if cell.RowSpan > 1 || cell.ColSpan > 1 {
 					sh.Merges = append(sh.Merges, ooxml.XMerge{C0: cc, R0: rr, C1: cc + max(1, cell.ColSpan) - 1, R1: rr + max(1, cell.RowSpan) - 1})
 				}
